@@ -205,6 +205,22 @@ def call_specdef(eng, f, args, kwargs, st):
 
 
 def call_repo(eng, qual, args, kwargs, st):
+    if eng.concrete:
+        # translation cross-check: callees are the real functions under CPython
+        from . import native
+        f = native.real_function(qual)
+        a = [native.unlift(x, st) for x in args]
+        k = {n: native.unlift(x, st) for n, x in kwargs.items()}
+        import warnings
+        with warnings.catch_warnings():
+            warnings.simplefilter('ignore')
+            try:
+                r = f(*a, **k)
+            except Exception as ex:
+                yield Raised(type(ex).__name__), st
+                return
+        yield native.lift(r, st), st
+        return
     reg = eng.registry
     c = reg.get(qual) if reg is not None else None
     if qual in eng.inline or (c is None and eng.auto_inline):
